@@ -3,9 +3,11 @@
 usage: tools/import_seed.py PID k "<caught-by text>" [--needed-strengthening "text"]"""
 import json, os, shutil, sys
 pid, k, caught = sys.argv[1], sys.argv[2], sys.argv[3]
+pre = os.environ.get("SEED_PRE", "out")
+dk = os.environ.get("SEED_DESTK", k)
 extra = sys.argv[5] if len(sys.argv) > 5 and sys.argv[4] == "--needed-strengthening" else ""
-src = "/tmp/seed/out-%s/change%s" % (pid, k)
-dst = "/verif/seeded/%s-%s" % (pid, k)
+src = "/tmp/seed/%s-%s/change%s" % (pre, pid, k)
+dst = "/verif/seeded/%s-%s" % (pid, dk)
 os.makedirs(dst, exist_ok=True)
 for f in os.listdir(src):
     if f.endswith(".log") or f.startswith("FOREIGN") or f in ("with.txt", "without.txt", "baseline.txt", "demo-with-change.txt", "demo-without-change.txt", "baseline-with-change.txt", "oracle.py") and False:
@@ -18,9 +20,10 @@ ver = {}
 vp = os.path.join(src, "VERIFIED.json")
 if os.path.exists(vp):
     ver = json.load(open(vp))
-meta["id"] = "%s-%s" % (pid, k)
+meta["id"] = "%s-%s" % (pid, dk)
 meta["breaks_property"] = pid
 meta["confirmed_in_scratch_worktree"] = {kk: ver.get(kk) for kk in ("applies", "builds", "baseline_green", "baseline_note", "demo_fails_with_change", "demo_passes_without_change", "verdict", "commands", "observed")}
+meta["round"] = 2 if pre == "out2" else 1
 meta["check_run"] = "tools/seedeval.sh %s %s  (= git apply of patch.diff on a scratch copy of /repo, then ./check %s --tier quick with VERIF_REPO pointing at the copy)" % (pid, k, pid)
 meta["check_result"] = caught
 if extra:
